@@ -40,17 +40,26 @@ def _helpers(ctx: Ctx, c: Collector) -> None:
     merger, target, other = (T.var(p) for p in fi.params[:3])
     st = s.of_kind("store")
     pr = []
-    ok_iter = all(len(e.iters) == 1 and items_iter(e.iters[0]) is not None and items_iter(e.iters[0])[0] == other for e in st) and len(st) == 2
+    from .. import boolfn
+    ok_iter = bool(st) and all(len(e.iters) == 1 and items_iter(e.iters[0]) is not None and items_iter(e.iters[0])[0] == other and e.term[1][0] == "idx" and e.term[1][1] == target for e in st)
     if not ok_iter:
         pr.append("does not visit every entry of `other` storing into `target`")
     else:
         k, v = items_iter(st[0].iters[0])[1], items_iter(st[0].iters[0])[2]
-        both = [e for e in st if guard_terms(e.guards) == [("cmp", "in", k, target)]]
-        only = [e for e in st if guard_terms(e.guards) == [("cmp", "notin", k, target)]]
-        if not both or both[0].term != ("store", ("idx", target, k), call(merger, ("idx", target, k), v)):
-            pr.append("a key present on both sides is not combined as merger(target[k], other[k])")
-        if not only or only[0].term != ("store", ("idx", target, k), v):
-            pr.append("a key only present in `other` is not added to `target`")
+        IN = ("cmp", "in", k, target)
+        try:
+            for present in (True, False):
+                fired = [e for e in st if boolfn.guards_hold_leaves(e.guards, {IN: present})]
+                if len(fired) != 1 or fired[0].term[1] != ("idx", target, k):
+                    pr.append(f"a key {'present on both sides' if present else 'only present in `other`'} is stored {len(fired)} times / under another key")
+                    continue
+                val = boolfn.resolve_phi(fired[0].term[2], {IN: present})
+                if present and val != call(merger, ("idx", target, k), v):
+                    pr.append("a key present on both sides is not combined as merger(target[k], other[k])")
+                if not present and val != v:
+                    pr.append("a key only present in `other` is not added to `target`")
+        except boolfn.NotBoolean as ex:
+            pr.append(f"condition not understood: {ex}")
     if not s.returns or s.returns[-1].term != target:
         pr.append("does not return `target`")
     c.add("helper", MERGE_ALL, "adds missing keys, merges common ones (existing first)", VIOLATED if pr else DISCHARGED, "; ".join(pr), fi.loc)
